@@ -70,14 +70,23 @@ STATUS = {'qdep': 200, 'nbS403': 403, 'nbS404': 404, 'ok': 200, 'brk404': 404, '
           'nb404_ret': 404, 'nb404_raise': 404, 'nb403_ret': 403, 'boom': 500}
 
 
+PROBED_RESOURCES = ('res0_0', 'res1_0', 'res1_1', 'res2_0', 'res3_0', 'res3_1', 'res4_0', 'res5_0', 'res5_1')
+
+
 def make_endpoint(tag, out, shared=None):
     """Endpoint echoing which route answered (X-R) and which resources are in scope.
     shared: {'nbS403': error object, ...} pre-built error objects that several routes hand back"""
-    def ep(_route, _application, request):
+    def ep(_route, _application, request, res0_0=None, res1_0=None, res1_1=None, res2_0=None, res3_0=None, res3_1=None, res4_0=None,
+           res5_0=None, res5_1=None):
         if out in ('nbS403', 'nbS404'):
             return shared[out]
+        # (round 14) resources the endpoint takes as DEFAULTED parameters: whichever application of the chain defines one,
+        # it must arrive - also when only the embedding application does
+        inj = [('res0_0', res0_0), ('res1_0', res1_0), ('res1_1', res1_1), ('res2_0', res2_0), ('res3_0', res3_0), ('res3_1', res3_1),
+               ('res4_0', res4_0), ('res5_0', res5_0), ('res5_1', res5_1)]
         h = {'X-R': tag, 'X-Route-Res': ','.join(sorted(_route.resources)),
-             'X-App-Res': ','.join(sorted(_application.resources))}
+             'X-App-Res': ','.join(sorted(_application.resources)),
+             'X-Injected': ','.join('%s=%s' % (n, v) for n, v in inj if v is not None)}
         if out == 'ctx':
             # a render context: needs a renderer made by some application's render factory
             return {'tag': tag, 'route_res': h['X-Route-Res'], 'app_res': h['X-App-Res']}
@@ -196,7 +205,7 @@ def observe(ex):
     return {'status': ex.code, 'tag': ex.header('X-R'),
             'allow': set(x.strip() for x in allow.split(',') if x.strip()) if allow is not None else None,
             'location': ex.header('Location'), 'route_res': ex.header('X-Route-Res'), 'app_res': ex.header('X-App-Res'),
-            'rendered_by': ex.header('X-Rendered-By'), 'stamp': ex.header('X-Stamp'), 'route_mark': ex.header('X-Route-Mark'),
+            'injected': ex.header('X-Injected'), 'rendered_by': ex.header('X-Rendered-By'), 'stamp': ex.header('X-Stamp'), 'route_mark': ex.header('X-Route-Mark'),
             'escaped': type(ex.escaped).__name__ if ex.escaped is not None else None}
 
 
